@@ -1374,7 +1374,7 @@ def check_outparams(ctx, tu):
                               tu.fn_loc(f), key='%s|%s|%s|unassigned-out:%s' % (R4, XML_FILE, f['q'].replace('rkcommon::', '') + ' ' + f['fty'], p['name']))
             else:
                 ctx.ok(R4, inst, 'assigned on every successful return (outcomes: %s)' % sorted(info['outcomes'], key=repr), tu.fn_loc(f))
-    ctx.floor(R4, n, 4, 'output parameters of parseString / parseIdentifier / parseProp on the pinned tree: 4')
+    ctx.floor(R4, n, 2, 'output parameters of the token producers (parseString, parseIdentifier; parseProp adds two on the pinned tree: 4)')
 
 
 # ============================================================================================
